@@ -562,6 +562,9 @@ func (idx *HNSWIndex) insertNode(node *hnswNode) {
 
 		if len(candidates) > 0 {
 			curr = candidates[0].id
+		} else if lc == 0 {
+			// No live vertex is reachable any more: searches must start from this one
+			idx.entryPoint = node.ID()
 		}
 	}
 }
@@ -591,10 +594,11 @@ func (idx *HNSWIndex) searchLayer(query []float32, entryPoint uint32, ef int, la
 	result := newMaxHeap()
 	defer putMaxHeap(result) // Return to pool when done
 
-	// Check entry point BEFORE adding to candidates
+	// Soft-deleted vertices are still traversed (they keep the graph connected)
+	// but are never reported
+	d := idx.distance.Calculate(query, idx.nodes[entryPoint].Vector())
+	heap.Push(candidates, candidate{id: entryPoint, distance: d})
 	if !idx.deletedNodes.Contains(entryPoint) {
-		d := idx.distance.Calculate(query, idx.nodes[entryPoint].Vector())
-		heap.Push(candidates, candidate{id: entryPoint, distance: d})
 		heap.Push(result, candidate{id: entryPoint, distance: d})
 	}
 	visited.Add(entryPoint)
@@ -611,11 +615,6 @@ func (idx *HNSWIndex) searchLayer(query []float32, entryPoint uint32, ef int, la
 		node := idx.nodes[current.id]
 		if layer < len(node.Edges) {
 			for _, neighborID := range node.Edges[layer] {
-				// SOFT DELETE CHECK: Skip deleted neighbors
-				if idx.deletedNodes.Contains(neighborID) {
-					continue
-				}
-
 				if !visited.Contains(neighborID) {
 					visited.Add(neighborID)
 
@@ -623,10 +622,14 @@ func (idx *HNSWIndex) searchLayer(query []float32, entryPoint uint32, ef int, la
 
 					if result.Len() < ef || d < (*result)[0].distance {
 						heap.Push(candidates, candidate{id: neighborID, distance: d})
-						heap.Push(result, candidate{id: neighborID, distance: d})
 
-						if result.Len() > ef {
-							heap.Pop(result)
+						// SOFT DELETE CHECK: deleted neighbors are explored, not reported
+						if !idx.deletedNodes.Contains(neighborID) {
+							heap.Push(result, candidate{id: neighborID, distance: d})
+
+							if result.Len() > ef {
+								heap.Pop(result)
+							}
 						}
 					}
 				}
